@@ -77,7 +77,7 @@ Data == JsonDeserialize(IOEnv.CASE_FILE)
 JInit == i = 0 /\ done = TRUE
 JNext == i < Len(Data.cases) /\ i' = i + 1 /\ UNCHANGED done
 
-BaseVals == (-30..30) \cup { -1000, -999, -120, -101, -100, -99, 99, 100, 101, 120, 999, 1000 }
+BaseVals == (-21..21) \cup { -1000, -999, -120, -101, -100, -99, 99, 100, 101, 120, 999, 1000 }
 NearBounds(I) ==
   UNION { (IF I[k].loinf THEN {} ELSE { I[k].lo - 1, I[k].lo, I[k].lo + 1 })
           \cup (IF I[k].hiinf THEN {} ELSE { I[k].hi - 1, I[k].hi, I[k].hi + 1 }) : k \in 1..Len(I) }
